@@ -490,3 +490,138 @@ Proof.
   intros c s x y R X Y. destruct (txn_invariant _ _ R) as [_ D2].
   apply D2 in X. apply D2 in Y. congruence.
 Qed.
+
+(* ------------------------------------------------------------------ *)
+(* E/F. The writer's base is the committed catalog; the log is serial.  *)
+
+Definition txn_base_ok (g : globals) (x : txid) : Prop :=
+  exists tx, nth_error (txns g) x = Some tx /\ t_base_ver tx = version g /\ t_base_cat tx = catalog g.
+
+(* newest first: every commit's base version is the number of earlier
+   commits, and its result is the previous result followed by its operations *)
+Fixpoint log_ok (l : list commit) (cat : list wop) (ver : nat) : Prop :=
+  match l with
+  | [] => cat = [] /\ ver = 0
+  | e :: l' => c_result e = cat /\ ver = S (c_base e) /\
+               exists prev, c_result e = prev ++ c_ops e /\ log_ok l' prev (c_base e)
+  end.
+
+Definition committing (p : pc) : option txid :=
+  match p with PCommitStore x _ | PCommitPub x _ => Some x | _ => None end.
+
+Definition inv_base_g (g : globals) : Prop :=
+  (forall x, etxn g = Some x -> txn_base_ok g x) /\ log_ok (log g) (catalog g) (version g).
+
+Definition inv_base (g : globals) (t : tid) (th : thread) : Prop :=
+  forall x, committing (th_pc th) = Some x -> txn_base_ok g x.
+
+Definition txns_base_mono (g g' : globals) : Prop :=
+  forall x tx, nth_error (txns g) x = Some tx ->
+  exists tx', nth_error (txns g') x = Some tx' /\ t_base_ver tx' = t_base_ver tx /\ t_base_cat tx' = t_base_cat tx.
+
+Lemma nth_error_app_old : forall A (l : list A) a x y, nth_error l x = Some y -> nth_error (l ++ [a]) x = Some y.
+Proof. intros. rewrite nth_error_app1; auto. apply nth_error_Some. congruence. Qed.
+
+Lemma tstep_base_mono : forall c t bgs g th a g' th',
+  tstep c t bgs g th a = Some (g', th') -> txns_base_mono g g'.
+Proof.
+  intros c t bgs g th a g' th' H. unfold txns_base_mono.
+  destruct th as [p prog cur canc bg inv pub rd res str].
+  destruct a; [destruct p|destruct p|destruct p|destruct p]; step_cases H; simp; intros y ty HY.
+  all: try solve [eexists; split; [eassumption|split; reflexivity]].
+  all: try solve [eexists; split; [apply nth_error_app_old; eassumption|split; reflexivity]].
+  all: rewrite ?nth_upd_match; eqb_cases; try rewrite HY; simpl;
+       try solve [eexists; split; [try eassumption; try reflexivity|split; reflexivity]].
+  all: try solve [eexists; split; [apply nth_error_app_old; eassumption|split; reflexivity]].
+Qed.
+
+Lemma tstep_publish : forall c t bgs g th a g' th',
+  tstep c t bgs g th a = Some (g', th') ->
+  (version g' = version g /\ catalog g' = catalog g /\ log g' = log g) \/
+  (exists x k, th_pc th = PCommitPub x k).
+Proof.
+  intros c t bgs g th a g' th' H.
+  destruct th as [p prog cur canc bg inv pub rd res str].
+  destruct a; [destruct p|destruct p|destruct p|destruct p]; step_cases H; simp;
+    try solve [left; auto]; right; eauto.
+Qed.
+
+Lemma txn_base_ok_mono : forall g g' x,
+  txns_base_mono g g' -> version g' = version g -> catalog g' = catalog g ->
+  txn_base_ok g x -> txn_base_ok g' x.
+Proof.
+  intros g g' x M V C (tx & N & A & B). destruct (M _ _ N) as (tx' & N' & A' & B').
+  exists tx'. rewrite V, C. repeat split; congruence.
+Qed.
+
+Lemma tstep_base : forall c t bgs g th a g' th',
+  tstep c t bgs g th a = Some (g', th') ->
+  inv_base_g g -> inv_base g t th -> (transit (th_pc th) = true -> etxn g = None) ->
+  inv_base_g g' /\ inv_base g' t th'.
+Proof.
+  intros c t bgs g th a g' th' H [E1 LG] IB TR.
+  pose proof (tstep_base_mono _ _ _ _ _ _ _ _ H) as M.
+  pose proof (tstep_publish _ _ _ _ _ _ _ _ H) as P.
+  unfold inv_base_g, inv_base in *.
+  destruct th as [p prog cur canc bg inv pub rd res str]. simpl in TR, IB, P.
+  destruct a; [destruct p|destruct p|destruct p|destruct p]; step_cases H; simp; simpl in TR.
+  all: destruct P as [(PV & PC & PL)|(px & pk & PP)]; [simpl in PV, PC, PL; try (exfalso; lia)|try discriminate PP].
+  all: try (split; [split|]).
+  all: try rewrite PV; try rewrite PC; try rewrite PL; auto.
+  all: try (intros y HY; eapply txn_base_ok_mono; eauto; fail).
+  all: simpl; try (intros y HY; try discriminate HY).
+  all: try solve [rewrite TR in HY by reflexivity; discriminate].
+  all: try solve [inversion HY; subst; eexists; split;
+                  [simpl; rewrite nth_error_app2, Nat.sub_diag by lia; simpl; reflexivity | simpl; auto]].
+  all: try solve [inversion HY; subst; eapply txn_base_ok_mono; eauto; apply IB; reflexivity].
+  all: try solve [inversion HY; subst;
+     match goal with E : negb (Nat.eqb _ _) = false |- _ => apply negb_false_iff in E; apply Nat.eqb_eq in E; subst end;
+     eapply txn_base_ok_mono; eauto].
+  all: try solve [destruct (IB _ eq_refl) as (tx & N & A & B); unfold txn_cat, txn_base, txn_ops; rewrite N;
+     split; [reflexivity|split; [congruence|exists (catalog g); split; [congruence|rewrite A; exact LG]]]].
+  all: try solve [apply E1; congruence].
+Qed.
+
+Lemma committing_holdsE : forall p x, committing p = Some x -> holdsE p = true /\ transit p = true.
+Proof. destruct p; simpl; intros; try discriminate; auto. Qed.
+
+Theorem base_invariant : forall c s, reachable c s -> inv_base_g (st_g s) /\ all_threads inv_base s.
+Proof.
+  induction 1.
+  - split.
+    + split; simpl; intros; try discriminate; auto.
+    + intros t th N x C. apply init_thread_nth in N. destruct N as [N _]. rewrite N in C. discriminate.
+  - destruct IHreachable as [IG IT].
+    pose proof (token_invariant _ _ H) as TI. pose proof (emutex_owner _ _ H) as EO.
+    apply step_inv in H0. destruct H0 as [H0|[H0|[H0|H0]]].
+    + destruct H0 as (t & a & th & g' & th' & -> & N & T & ->).
+      assert (TR : transit (th_pc th) = true -> etxn (st_g s) = None) by (intros; eapply transit_etxn_none; eauto).
+      destruct (tstep_base _ _ _ _ _ _ _ _ T IG (IT _ _ N) TR) as [IG' IT'].
+      split; [exact IG'|].
+      intros u thu NU. simpl in NU. rewrite (nth_error_upd _ _ _ _ _ _ N) in NU.
+      destruct (Nat.eqb t u) eqn:Q.
+      * apply Nat.eqb_eq in Q. subst. inversion NU; subst. exact IT'.
+      * apply Nat.eqb_neq in Q. intros x C. simpl.
+        destruct (tstep_publish _ _ _ _ _ _ _ _ T) as [(PV & PC & _)|(px & pk & PP)].
+        -- assert (MM := tstep_base_mono _ _ _ _ _ _ _ _ T).
+           apply (txn_base_ok_mono (st_g s)); [exact MM | exact PV | exact PC | exact (IT _ _ NU _ C)].
+        -- exfalso. apply committing_holdsE in C. destruct C as [C _].
+           apply (EO _ _ NU) in C. assert (HE : holdsE (th_pc th) = true) by (rewrite PP; reflexivity).
+           apply (EO _ _ N) in HE. congruence.
+    + destruct H0 as (t & th & -> & N & ->). split; [exact IG|].
+      intros u thu NU. simpl in NU. rewrite (nth_error_upd _ _ _ _ _ _ N) in NU.
+      destruct (Nat.eqb t u) eqn:Q.
+      * apply Nat.eqb_eq in Q. subst. inversion NU; subst. exact (IT _ _ N).
+      * exact (IT _ _ NU).
+    + destruct H0 as [-> ->]. split; [exact IG|exact IT].
+    + destruct H0 as [-> ->]. split; [exact IG|exact IT].
+Qed.
+
+(* while a transaction is installed in e.txn the committed catalog is the
+   catalog it was created from *)
+Theorem base_is_current_thm : forall c s x,
+  reachable c s -> etxn (st_g s) = Some x -> txn_base_ok (st_g s) x.
+Proof. intros c s x R. destruct (base_invariant _ _ R) as [[E1 _] _]. auto. Qed.
+
+Theorem log_serial : forall c s, reachable c s -> log_ok (log (st_g s)) (catalog (st_g s)) (version (st_g s)).
+Proof. intros c s R. destruct (base_invariant _ _ R) as [[_ L] _]. auto. Qed.
